@@ -89,7 +89,7 @@ int main(int argc, char **argv)
 			int ok = 1;
 			for (int b = 0; b < NBLK; ++b) {
 				if (sqfs_compressor_create(&cfg, &fresh)) { ok = 0; break; }
-				if (dir == 0) reflen[b] = run_one(fresh, blk[b], BS, ref[b], sizeof(ref[b]));
+				if (dir == 0) reflen[b] = run_one(fresh, blk[b], BS, ref[b], BS);   /* output capacity = block size, like the block processor's scratch buffer: incompressible blocks run out of space */
 				else reflen[b] = complen[b] > 0 ? run_one(fresh, comp[b], (size_t)complen[b], ref[b], BS) : -9999;
 				sqfs_drop(fresh);
 			}
@@ -105,7 +105,7 @@ int main(int argc, char **argv)
 					int r = 0;
 					for (int i = 0; i < len; ++i) {
 						int b = seq[i];
-						if (dir == 0) r = run_one(c, blk[b], BS, out, sizeof(out));
+						if (dir == 0) r = run_one(c, blk[b], BS, out, BS);
 						else r = complen[b] > 0 ? run_one(c, comp[b], (size_t)complen[b], out, BS) : -9999;
 						calls++;
 					}
